@@ -14,13 +14,16 @@ TraceInit == l = 1 /\ bad = 0
 
 \* 8 MiB of fixed cost plus the largest expansion the wrapped formats permit (DEFLATE 1032:1, LH5 1024:1)
 \* times the doubling of a growing buffer and one copy
-AllocBound(size) == 8388608 + 3000 * size
+\* - for the formats that wrap a compressed stream whose whole contents the loader needs (gzip, VTX). The other
+\* loaders know how much they need (a page, a block, a screen): 4 MiB of fixed cost plus 8 bytes per byte of input
+Wrapping(kind) == kind = "vtx" \/ (Len(kind) >= 4 /\ SubSeq(kind, 1, 4) = "gzip")
+AllocBound(kind, size) == IF Wrapping(kind) THEN 8388608 + 3000 * size ELSE 4194304 + 8 * size
 
 IsPanic(s) == Len(s) >= 5 /\ SubSeq(s, 1, 5) = "panic"
 Case(e) ==
     LET okOutcome == e.outcome \in {"ok", "err"}
         okPost == ~IsPanic(e.post)
-        okAlloc == e.alloc <= AllocBound(e.size)
+        okAlloc == e.alloc <= AllocBound(e.kind, e.size)
     IN IF okOutcome /\ okPost /\ okAlloc THEN bad' = bad
        ELSE /\ PrintT(<<"MISMATCH", l, IF ~okOutcome THEN e.outcome ELSE IF ~okPost THEN "postpanic" ELSE "alloc",
                        [idx |-> e.idx, kind |-> e.kind, detail |-> e.detail, post |-> e.post, alloc |-> e.alloc, size |-> e.size, what |-> e.what]>>)
